@@ -1,5 +1,6 @@
 import QipVerif.Util.GateIO
 import QipVerif.Gen.GateDefsF
+import QipVerif.Model.Ctrl
 /-! Driver for the exact gate library and exact denotation (C09, C01, C03 share it).
 
 * `gate name=NAME n8=K`          → `ok m e|rows` exact compact matrix of the gate with angle K·π/8
@@ -7,8 +8,27 @@ import QipVerif.Gen.GateDefsF
 * `gatef fn=FUNC args=b1,b2,..`  → `ok rows` the generated float rendering of gate function FUNC at the
                                     given arguments (IEEE bit patterns as decimal integers, in and out)
 * `den k=K gates=<list>`         → `ok e|rows` exact unitary of a fixed-angle circuit on K qubits | `none`
+* `ctrl cs=A ts=A n=N|- v=V`     → `ok K rows` | `err <kind>`: the model of `controlled_gate` (Model/Ctrl.lean) for a
+                                    single-qubit U; an argument `A` is `s:3` (a bare integer) or `l:0,2` (a list);
+                                    rows of the 2^K × 2^K result, one letter per element: z = 0, o = 1,
+                                    a b c d = U[0][0] U[0][1] U[1][0] U[1][1]
 -/
 open QipVerif QipVerif.Proto QipVerif.GateIO
+
+def ctrlArg? (s : String) : Option Ctrl.Arg :=
+  if s.startsWith "s:" then ((s.drop 2).toString.toInt?).map Ctrl.Arg.scalar
+  else if s.startsWith "l:" then (intList? (s.drop 2).toString).map Ctrl.Arg.list
+  else none
+
+def entChar : Ctrl.Ent → Char
+  | .zero => 'z' | .one => 'o'
+  | .u 0 0 => 'a' | .u 0 1 => 'b' | .u 1 0 => 'c' | .u 1 1 => 'd'
+  | .u _ _ => '?'
+
+def ctrlErr : Ctrl.CErr → String
+  | .lenOfInt => "lenOfInt" | .nested => "nested" | .blockIndex => "blockIndex"
+  | .embed .count => "count" | .embed .range => "range" | .embed .dims => "dims" | .embed .index => "index"
+  | .embed .permute => "permute"
 
 def step (line : String) : String :=
   let fs := fields line
@@ -34,6 +54,22 @@ def step (line : String) : String :=
       | some d => "ok " ++ showDMat d
       | none => "none"
     | _, _ => "bad-op"
+  | some "ctrl" =>
+    match (fStr? fs "cs").bind ctrlArg?, (fStr? fs "ts").bind ctrlArg?, fStr? fs "n", fInt? fs "v" with
+    | some cs, some ts, some ns, some v =>
+      let N? : Option (Option Nat) := if ns == "-" then some none else ns.toNat?.map some
+      match N? with
+      | none => "bad-op"
+      | some N? =>
+        match Ctrl.controlledGate (if Gen.GF.ctrlCompatTest == "controls" then .controls else .targets) cs ts N? v with
+        | .error e => "err " ++ ctrlErr e
+        | .ok r =>
+          let dims := List.replicate r.K 2
+          let n := 2 ^ r.K
+          let rows := (List.range n).map fun X =>
+            String.ofList ((List.range n).map fun Y => entChar (r.entry (Embed.digits dims X) (Embed.digits dims Y)))
+          s!"ok {r.K} " ++ ";".intercalate rows
+    | _, _, _, _ => "bad-op"
   | _ => "bad-op"
 
 def main : IO Unit := serve step
